@@ -408,6 +408,7 @@ type c17Job struct {
 
 // TestVerifC17_rsa_subsets: all (l,k) up to a bound, every non-empty subset of players, enumerated orders, two modes.
 func TestVerifC17_rsa_subsets(t *testing.T) {
+	c17DefaultConfigOnly(t)
 	r := verifmc.Start(t, "C17", "rsa_subsets")
 	defer r.Finish()
 	ov := verifmc.NewOrderedViolations(r)
@@ -446,6 +447,7 @@ func TestVerifC17_rsa_subsets(t *testing.T) {
 
 // TestVerifC17_rsa_modes: the full product of paddings, blinding and caching, two successive signatures per dealing.
 func TestVerifC17_rsa_modes(t *testing.T) {
+	c17DefaultConfigOnly(t)
 	r := verifmc.Start(t, "C17", "rsa_modes")
 	defer r.Finish()
 	ov := verifmc.NewOrderedViolations(r)
@@ -485,6 +487,7 @@ func TestVerifC17_rsa_modes(t *testing.T) {
 
 // TestVerifC17_rsa_keys: every key fixture (1024, 1025, 1031, 2048, 3072 bits), all paddings.
 func TestVerifC17_rsa_keys(t *testing.T) {
+	c17DefaultConfigOnly(t)
 	r := verifmc.Start(t, "C17", "rsa_keys")
 	defer r.Finish()
 	ov := verifmc.NewOrderedViolations(r)
@@ -566,6 +569,7 @@ func c17Structured(l, k int) map[string][]int {
 
 // TestVerifC17_rsa_params: every (l,k) up to 30 (40) with structured subsets.
 func TestVerifC17_rsa_params(t *testing.T) {
+	c17DefaultConfigOnly(t)
 	r := verifmc.Start(t, "C17", "rsa_params")
 	defer r.Finish()
 	ov := verifmc.NewOrderedViolations(r)
@@ -622,4 +626,12 @@ func TestVerifC17_rsa_params(t *testing.T) {
 	r.RequireCounter("qualified_sets_with_lagrange_products_over_63_bits", 100)
 	r.RequireCounter("qualified_sets_with_player_powers_beyond_float64", 500)
 	r.RequireCounter("unqualified_refused", 300)
+}
+
+// c17DefaultConfigOnly: units whose code under test is math/big only (no CPU-feature dependent paths) run in the
+// default configuration; the other configurations of checks.d/C17.json exist for the Feldman unit (P-384 arithmetic).
+func c17DefaultConfigOnly(t *testing.T) {
+	if c := os.Getenv("VERIF_CONFIG"); c != "" && c != "default" {
+		t.Skip("unit runs in the default configuration only")
+	}
 }
